@@ -427,6 +427,29 @@ pub fn spaces(tier: Tier) -> Vec<Space<'static>> {
         let sz = std::sync::Arc::new(crate::checks::scale::sizes_heavy(tier));
         sp.push(Space::new("size sweep: every N up to the limit x 4 families x 13 paths", sz.len() as u64, move |i, acc| crate::checks::scale::sized_paths(sz[i as usize], acc, false)));
     }
+    // numbers around every width boundary in index / offset / range positions, written as text: where
+    // the model grammar assigns the text a meaning, the parsed path must select what that meaning selects
+    {
+        let nums = crate::checks::c20::extreme_number_texts();
+        let docs: Arc<Vec<(RVal, Vec<u8>)>> = Arc::new(
+            [RVal::Arr((0..5).map(RVal::u).collect()), RVal::Arr(vec![RVal::s("only")]), RVal::arr(vec![]), RVal::obj(vec![("a", RVal::Arr(vec![RVal::u(1), RVal::Null, RVal::s("x")]))]), RVal::u(7)]
+                .into_iter()
+                .map(|x| { let b = enc(&x); (x, b) })
+                .collect(),
+        );
+        sp.push(Space::new("extreme numbers as text in index, offset and range positions, evaluated", nums.len() as u64, move |i, acc| {
+            let n = &nums[i as usize];
+            for t in [format!("$[{}]", n), format!("$[last - {}]", n), format!("$[last + {}]", n), format!("$[{} to last]", n), format!("$[0 to {}]", n), format!("$[0 to last - {}]", n), format!("$[last - {} to last]", n), format!("$[last + {} to last]", n), format!("$.a[{} to {}]", n, n), format!("$.a[0 to last + {}]", n)] {
+                let refmodel::jparse::Verdict::Accept(m) = refmodel::jparse::parse_path(t.as_bytes()) else { continue };
+                let st: &'static [u8] = Box::leak(t.clone().into_bytes().into_boxed_slice());
+                let Ok(Ok(ip)) = guard(|| jsonb::jsonpath::parse_json_path(st)) else { continue };
+                acc.nontrivial += 1;
+                for (d, b) in docs.iter() {
+                    judge(&m, &ip, d, b, acc);
+                }
+            }
+        }));
+    }
     for ps in path_sets(tier) {
         let n = ps.paths.len() as u64;
         let (paths, docs) = (ps.paths.clone(), ps.docs.clone());
